@@ -83,8 +83,11 @@ Check(r, idx) ==
                         /\ w.k = 1
                         /\ w.op \in {"set", "compute"}
                         /\ (\E x \in nfRuns : enterSeq(x) < w.seq /\ wretSeq(w) < installSeq(x))
-                        /\ (~\E w2 \in wcalls : w2.seq > w.seq /\ IsWrite(w2.op))
-                        /\ (~\E a \in aevs : a.k = 1 /\ a.seq > w.seq /\ a.err \in {"Overflow", "Expiration"})
+                        \* nothing else can explain a different final value: every other write had returned before this one was
+                        \* called, no other loader run started after it, no automatic removal followed
+                        /\ (\A w2 \in wcalls : (w2 # w /\ IsWrite(w2.op)) => wretSeq(w2) < w.seq)
+                        /\ (~\E en \in enters : en.k = 1 /\ en.seq > w.seq)
+                        /\ (~\E a \in aevs : a.k = 1 /\ a.seq > wretSeq(w) /\ a.err \in {"Overflow", "Expiration"})
                         /\ fin(1) # {w.v}}
         \* F17: an explicit invalidation whose removal was published (its atomic handler returned, record "hret") after the
         \* load had started, and the loaded value is in the cache nevertheless
